@@ -377,6 +377,9 @@ ALPHABETS = {
     'csv_hostile': (['a,b', '"q"', 'line\nbreak', 'cr\r\nlf', ' lead', 'trail '], ['p,', '""', 'x\ny', "'s'", ', ,', ' ']),
     'backslash': (['a\\b', '\\', 'c\\', '\\n', 'd\\"e', '\\\\x'], ['p\\q', '\\t', 'r\\', '\\\\', "s\\'", '\\0']),
     'long': (['o' * 40, 'a', 'bb', 'c' * 17, 'd', 'ee'], ['p', 'q' * 33, 'r', 'ss', 't' * 9, 'u']),
+    # hundreds to thousands of characters, some differing only in their last character (truncation, buffers)
+    'very_long': (['o' * 255 + 'x', 'o' * 255 + 'y', 'a' * 1024, 'b' * 4097, 'c' * 300, 'd'],
+                  ['p' * 256, 'p' * 257, 'q' * 1023 + '1', 'q' * 1023 + '2', 'r' * 5000, 's']),
 }
 
 
